@@ -153,6 +153,9 @@ pub fn check(spec: &DistSpec, out: &Out) -> Option<(&'static str, String)> {
                     if spec.p[0] == 1.0 && k != 0 {
                         return Some(("out-of-support", format!("{k} for p = 1")));
                     }
+                    if spec.p[0] == 0.0 && k != u64::MAX {
+                        return Some(("out-of-support", format!("{k} for p = 0 (documented: u64::MAX)")));
+                    }
                 }
                 _ => {}
             }
